@@ -9,7 +9,7 @@ RUST_PRELUDE = ["option", "result", "vec", "string", "box", "some", "none", "ok"
 RUST_TEMPS = ["ptr0", "len0", "result0", "ret", "base", "e", "t", "v0", "val", "vec0", "array0", "handle0", "l0", "e0", "bytes0", "ptr", "len", "layout0", "dealloc-lists0", "cleanup-list", "rt", "wit-bindgen"]
 C_KW = ["int", "char", "float", "double", "void", "struct", "union", "enum", "typedef", "static", "extern", "const", "volatile", "register", "auto",
         "if", "else", "while", "for", "do", "switch", "case", "default", "break", "continue", "return", "goto", "sizeof", "short", "long", "signed",
-        "unsigned", "inline", "restrict", "bool", "true", "false", "errno", "main", "ret", "ptr", "len", "payload", "tag", "val", "is-some", "is-err"]
+        "unsigned", "inline", "restrict", "typeof", "asm", "bool", "true", "false", "errno", "main", "ret", "ptr", "len", "payload", "tag", "val", "is-some", "is-err"]
 CPP_KW = C_KW + ["class", "namespace", "template", "typename", "new", "delete", "this", "operator", "private", "public", "protected", "virtual",
                  "friend", "using", "try", "catch", "throw", "concept", "requires", "co-await", "co-return", "co-yield", "export", "import", "module",
                  "nullptr", "explicit", "mutable", "and", "or", "not", "xor", "std", "wit"]
